@@ -459,6 +459,34 @@ func runC10(c *Ctx) {
 			return true
 		})
 	}
+	// names that differ in an octet 32 away from its partner without being a letter ('[' / '{', ']' / '}', '^' / '~',
+	// '_' / DEL), and signatures followed by junk: the key must not be taken for the signer, the signature not accepted
+	for _, alg := range []uint8{dns.ED25519, dns.ECDSAP256SHA256, dns.RSASHA256} {
+		for _, pr := range [][2]string{{"[", "{"}, {"]", "}"}, {"^", "~"}, {"_", "\\127"}} {
+			for dir := 0; dir < 2; dir++ {
+				zoneName := "zo" + pr[dir] + "ne.example."
+				other := "zo" + pr[1-dir] + "ne.example."
+				k := newSignKey(r, alg, zoneName)
+				set := []dns.RR{&dns.A{Hdr: dns.RR_Header{Name: "host." + zoneName, Rrtype: dns.TypeA, Class: 1, Ttl: 60}, A: []byte{192, 0, 2, 1}}}
+				rs := &dns.RRSIG{Hdr: dns.RR_Header{Ttl: 60}, Algorithm: alg, SignerName: zoneName, KeyTag: k.key.KeyTag(), Inception: 1700000000, Expiration: 1900000000}
+				if err := rs.Sign(k.signer, set); err != nil {
+					continue
+				}
+				in := fmt.Sprintf("alg=%d signer=%s", alg, hxs(zoneName))
+				c.Pred("neighbour-octets", "own-key-verifies", in, rs.Verify(k.key, set) == nil, "rejected", "accepted", true)
+				k2 := dns.Copy(k.key).(*dns.DNSKEY)
+				k2.Hdr.Name = other
+				c.Pred("neighbour-octets", "altered-key-owner-neighbour-octet-rejected", in+" key-owner="+hxs(other), rs.Verify(k2, set) != nil, "accepted", "rejected", true)
+				set2 := []dns.RR{&dns.A{Hdr: dns.RR_Header{Name: "host." + other, Rrtype: dns.TypeA, Class: 1, Ttl: 60}, A: []byte{192, 0, 2, 1}}}
+				c.Pred("neighbour-octets", "altered-rrset-owner-neighbour-octet-rejected", in+" rrset-owner="+hxs("host."+other), rs.Verify(k.key, set2) != nil, "accepted", "rejected", true)
+				for _, junk := range []string{"A", "=", "!", "AAA", "A===", "\x00", " ", "AAAA"} {
+					s2 := dns.Copy(rs).(*dns.RRSIG)
+					s2.Signature += junk
+					c.Pred("neighbour-octets", "altered-rrsig-signature-trailing-junk-rejected", in+" junk="+hxs(junk), s2.Verify(k.key, set) != nil, "accepted", "rejected", true)
+				}
+			}
+		}
+	}
 	// RSA keys at every supported modulus size up to the 4096-bit maximum (fixed keys, see rsakeys.go):
 	// what Sign produces with the private key must verify with the DNSKEY built from the public key
 	for _, bits := range []int{1024, 2048, 3072, 4096} {
